@@ -34,7 +34,9 @@ INDENTS = ['', ' ', '  ', '\t', '    ']
 RULES = {
     'C01': ('TLC-derived programs (11 themes subsampled by tree shape and '
             'by adjacent token-class pair, + simulate), rich spellings, one '
-            'plain and one random source layout, x 5 indentation strings; '
+            'plain and one random source layout, plus compositions of the short '
+            'programs into longer ones and twins (same statement twice with '
+            'two spellings sharing a first / last character), x 5 indentation strings; '
             'each printed text is one PrintTrace record and one re-parse / '
             'fixpoint evaluation.  Non-trivial = at least 3 tokens; distinct '
             'by (source text, indentation string).'),
@@ -124,6 +126,16 @@ def select(themes, deep, tier):
                 if (a, b) not in seen:
                     seen.add((a, b))
                     new = True
+            # what follows / precedes a construct: (kind, next token class)
+            for nd in s.nodes:
+                if nd.last is None:
+                    continue
+                nxt = cl[nd.last + 1] if nd.last + 1 < len(cl) else 'EOF'
+                prv = cl[nd.first - 1] if nd.first else 'START'
+                for t in (('follow', nd.kind, nxt), ('lead', nd.kind, prv)):
+                    if t not in seen:
+                        seen.add(t)
+                        new = True
             if new or hash(s.key()) % mod == 0:
                 keep.append(s)
     return keep
@@ -157,6 +169,16 @@ def main_for(prop, tier, seed, replay=None):
                               gaps=gaps)
             work.append((text, 'reuse' if prop == 'C20' else True))
             sents.append(_freeze(s))
+    # longer programs composed of the short ones, and twins (gen.compositions)
+    comps = gen.compositions(themes, rng, tier, names=THEMES)
+    if prop == 'C20':
+        comps = [c for c in comps if c[1] is None]
+    for s, sp in comps:
+        text = concretise(s, seed=rng.randrange(1000), pools='rich',
+                          spellings=sp)
+        work.append((text, 'reuse' if prop == 'C20' else True))
+        sents.append(s)
+    rep.notes['compositions'] = len(comps)
     res = impl.pmap(_print, work, chunk=100)
     rep.mark('printed')
     cases = []
